@@ -12,7 +12,7 @@ func init() { Registry["C17"] = c17 }
 
 func c17(e *Env) {
 	r := e.R
-	r.Explanation = "Structural conditions of FIFO streaming: (R1) producer and consumer name the same pipe: the {os:} arm and the streaming {i:} arm of the command formatter both yield the parent-dir-prefixed FifoPath of the IP, and FifoPath is <Path>.fifo; (R2) in Process.Run, in the iteration that starts a task: an already existing FIFO is fatal before it is recreated (C03.R4); for every streaming output the FIFO is created and then the IP is sent downstream, and this loop over all outputs has completed before the task goroutine is started (so the pipe exists and the consumer holds the IP before the producer can open it); (R3) after the task is done the FIFO of every streaming output is removed (complete loop); (R4) with the streaming flag set, an output is exempt from the existence checks and the rename: the skip test never stats it, a missing temp file for it is not fatal, it is never renamed; with the flag false these tests apply (C01/C02); (R5) the consumer's audit record links the producer (Upstream keyed by the in-IP's Path, C10.R1)."
+	r.Explanation = "Structural conditions of FIFO streaming: (R1) producer and consumer name the same pipe: the {os:} arm and the streaming {i:} arm of the command formatter both yield the parent-dir-prefixed FifoPath of the IP, and FifoPath is <Path>.fifo; (R2) in Process.Run, in the iteration that starts a task: an already existing FIFO is fatal before it is recreated (C03.R4); for every streaming output the FIFO is created and then the IP is sent downstream, and this loop over all outputs has completed before the task goroutine is started (so the pipe exists and the consumer holds the IP before the producer can open it); (R3) after the task is done the FIFO of every streaming output is removed (complete loop); (R4) with the streaming flag set, an output is exempt from the existence checks and the rename: the skip test never stats it, a missing temp file for it is not fatal, it is never renamed; with the flag false these tests apply (C01/C02); (R5) the consumer's audit record links the producer: Upstream is keyed by the in-IP's Path with that IP's record (C10.R1), and an IP that is sent downstream before its task completed must already carry the record (known finding K10: it does not)."
 	r.NotDecided = "byte-exact and complete delivery through the pipe, absence of a regular file at the path (a command can do anything), and termination of a re-run of a completed streaming workflow: reading the code and an independent experiment both show that re-run HANGS on the pinned tree (the producer has no non-streaming output so it re-executes, the skipped consumer never opens the pipe; observation K5, DESIGN.md §8) - cross-process liveness that these rules do not decide. Also not decided: that the consumer's audit link is filled when the consumer finishes before the producer (schedule-dependent)."
 	a := e.anchors()
 	if !a.ok() {
@@ -146,6 +146,8 @@ func c17(e *Env) {
 	}
 	// ---- R2b the directory of the pipe exists before mkfifo
 	e.c17FifoDir()
+	// ---- R5 (first half) the producer's record travels with the IP
+	e.recordBeforePublish("R5")
 	// ---- R3
 	e.fifoRemovedRule("R3")
 	// ---- R4 exemptions in Execute
@@ -366,5 +368,49 @@ func (e *Env) c17FifoDir() {
 	}
 	if ob.Sites == 0 {
 		ob.Unknown(core.FuncName(cf), "mkfifo not reachable with the streaming flag set")
+	}
+}
+
+// recordBeforePublish (C17.R5, shared as C10.R6): an out-IP that Process.Run hands downstream while its task has
+// not completed (a streaming output: sent before the task goroutine is even started) must already carry the
+// task's audit record - consumers read FileIP.AuditInfo() of their inputs when THEY finish, which may be earlier
+// than the producer. IPs of completed tasks (sent after the task's Done) carry it by C05.R4 / C10.R2.
+func (e *Env) recordBeforePublish(rule string) {
+	r := e.R
+	a := e.anchors()
+	ob := r.Ob(rule, "(*Process).Run:record-attached≺publish(stream)", "an out-IP that is sent downstream before its task has completed already carries the task's audit record (SetAuditInfo precedes the send in the same iteration)")
+	if !a.ok() {
+		return
+	}
+	g := e.XG(a.procRun)
+	if g == nil {
+		return
+	}
+	isSet := func(n *core.Node) bool {
+		return n.Callee != nil && core.FuncName(n.Callee) == "(*FileIP).SetAuditInfo" && n.Kind != core.KAfter
+	}
+	n0 := 0
+	for _, n := range g.Nodes {
+		if n.Kind == core.KAfter {
+			continue
+		}
+		if _, ok := isPortSend(n); !ok || strings.Contains(e.xargSym(n, 1).String(), "[0]") {
+			continue // not a send, or a send of the completed queue head's IP
+		}
+		n0++
+		head := loopHeadNext(g, n)
+		must := g.Forward(func(m *core.Node) core.Transfer {
+			if m == head {
+				return core.Transfer{Reset: true}
+			}
+			if isSet(m) {
+				return core.Transfer{Gen: 1}
+			}
+			return core.Transfer{}
+		}, true)
+		ob.Check(must[n]&1 != 0, g.Where(n), "SetAuditInfo precedes the early send", "the streaming out-IP "+trunc(e.xargSym(n, 1).String(), 80)+" is sent downstream before the task has run and without an audit record attached: a consumer that finishes before the producer links an empty record as its upstream")
+	}
+	if n0 == 0 {
+		ob.OK(core.FuncName(a.procRun), "no out-IP is sent before its task has completed")
 	}
 }
